@@ -13,18 +13,20 @@ type Finding struct {
 
 // Stats is what the oracle observed in one run (evidence counters).
 type Stats struct {
-	UnitsCommitted  int // unit transactions of this run
-	UnitsResumed    int // ... committed by a restarted instance
-	UnitsRepeated   int // ... that had been committed before in the lineage
-	RecoveryPasses  int // starts whose StartPoint deleted journal records
-	FrontierSaves   int
-	JournalDeletes  int
-	LatestWrites    int
-	StartsNoTraffic int
-	StartsTotal     int
-	ModeSwitches    int // starts configured with another mode than the previous start
-	Refusals        int
-	Inconclusive    []string
+	UnitsCommitted   int // unit transactions of this run
+	UnitsResumed     int // ... committed by a restarted instance
+	UnitsRepeated    int // ... that had been committed before in the lineage
+	RecoveryPasses   int // starts whose StartPoint deleted journal records
+	FrontierSaves    int
+	JournalDeletes   int
+	LatestWrites     int
+	StartsNoTraffic  int
+	StartsTotal      int
+	ModeSwitches     int // starts configured with another mode than the previous start
+	StopGapsSync     int // stopped runs that committed a unit beyond one they never committed (sync mode)
+	StopGapsFrontier int // the same in pipeline/parallel mode (journal gap: frontier stays before it)
+	Refusals         int
+	Inconclusive     []string
 }
 
 func badClass(b string) string {
@@ -180,7 +182,7 @@ func (e *Env) Judge(l *RunLog) ([]Finding, Stats) {
 		if s.Err != nil {
 			if strings.Contains(s.Err.Error(), "journal gap") {
 				st.Refusals++
-				add("restart|start-point-refused|journal-gap", "%s: StartPoint fails with %q — the instance cannot resume from the state the previous (interrupted) start-up left", where, s.Err.Error())
+				add("restart|start-point-refused|journal-gap", "%s: StartPoint fails with %q — the instance cannot resume from the state the previous (stopped or interrupted) instance left", where, s.Err.Error())
 			} else if strings.Contains(s.Err.Error(), "no bisync authoritative migration seed found") {
 				// only provoked from states with committed units (switchPlan): the namespace has lost its recovery state
 				st.Refusals++
@@ -277,11 +279,21 @@ func (e *Env) Judge(l *RunLog) ([]Finding, Stats) {
 				if k < len(want) {
 					exp = fmt.Sprintf("unit %d", want[k].Idx)
 				}
-				add("resumed-run|skips-or-reorders-units", "run from %d: position %d committed unit %d, expected %s", s.SP.Offset, k, t.Unit.Idx, exp)
+				switch {
+				case l.Stopped && s.Mode.UsesFrontier():
+					// the journal's sequence gap keeps the frontier before the unit that was passed
+					// over; whether anything is skipped for good is judged on the next start
+					st.StopGapsFrontier++
+				case l.Stopped:
+					st.StopGapsSync++
+					add("stop|unit-skipped-by-stopped-run", "%s: the stopped run committed unit %d (request %d) although %s was never committed — the next start resumes after it", l.StopSpec, t.Unit.Idx, t.Txn, exp)
+				default:
+					add("resumed-run|skips-or-reorders-units", "run from %d: position %d committed unit %d, expected %s", s.SP.Offset, k, t.Unit.Idx, exp)
+				}
 				break
 			}
 		}
-		if l.Completed && l.SendErr != nil && strings.Contains(l.SendErr.Error(), "context canceled") && len(got) < len(want) {
+		if !l.Stopped && l.Completed && l.SendErr != nil && strings.Contains(l.SendErr.Error(), "context canceled") && len(got) < len(want) {
 			add("resumed-run|units-lost", "run from %d reached the last unit but committed only %d of %d units", s.SP.Offset, len(got), len(want))
 		}
 	}
